@@ -179,6 +179,19 @@ CLAIMS = {
              "is sampled by the fault sweep, not proved; valid starting files are limited to /repo/testdata (no Parquet writer offline); five crash sites and one hang are listed as known findings, keyed by panicking file + message.",
         technique="Lean 4 proof (footer bounds, CSV decoder totality and output bound) + fault-space sweep (truncation / byte corruption / metadata lies) with crash, hang and memory oracle in child processes",
         design="5/C19", partial=True),
+    "C04": dict(
+        text=("Props/C04.lean about Core/Proto.lean (one critical section of the Rust code = one atomic action). Task model of TaskState::schedule / the worker loop / ThreadedQueryHandle::cancel: an invariant proved for every "
+              "reachable state, i.e. every interleaving of wakes (incl. spurious and repeated), worker steps and cancellation (task_inv_reachable, induction over the action list) gives task_no_lost_wake (a wake arriving after "
+              "the last poll began leaves `pending` set or a run queued), task_never_polled_after_complete, cancel_reports_error (cancel of an uncompleted task reports the error in the same step, whatever the task is doing) "
+              "and poll_error_reported. Barrier model of the countdown + flag + PartitionWakers pattern used by every cross-partition phase: barrier_no_lost_wake - for every partition count and every interleaving of arrivals "
+              "and polls, once the flag is set no partition stays parked un-woken; the variant without wake_all loses a wake (witness). Tie: the harness implements PipelineRuntime itself, owns the partition pipelines and "
+              "polls them one at a time, wake-only, under random / fifo / lifo / client-starving / client-first schedules with injected spurious wakes: 40 query shapes covering every barrier kind x 5 partition counts x ~46 "
+              "schedules must terminate (no runnable task while unfinished = lost wake-up, reported with the schedule) with the result of the ordinary run; on the real thread pool QueryHandle::cancel at 0/20/150 ms of long "
+              "scans / joins / sorts must end the stream with an error promptly, and a run-time error in one partition must reach the client for 1-16 partitions."),
+        note=TB + "the protocol models are abstractions (per-operator instances of the barrier are not modelled one by one; the real operators are tied by the controlled-scheduler runs); interleavings inside one poll_execute and "
+             "rayon's fairness are not controlled; the Task model is tied to task.rs only through the cancellation / error runs on the real thread pool (TaskState is crate-private); the wasm runtime is not driven.",
+        technique="Lean 4 proof (invariants of the task and barrier protocol models by induction over all schedules) + controlled-scheduler exploration of the real pipelines with a lost-wake-up oracle + cancellation/error runs",
+        design="5/C04"),
 }
 
 NOT_YET = {
